@@ -30,10 +30,12 @@ BUGS = {
     "pxNoEnvelopeCheck": ("Inv_PX", {}),
     "noDirectExempt": ("Inv_Direct", {"Direct": "{p3}"}),
     "gaterNone": ("Inv_Gater", {}),
+    # the mesh-full refusal (the only one that keeps doPX) tested before the negative-score refusal: needs a mesh that fills up
+    "fullBeforeNegative": ("Inv_Negative", {"D": 2, "Dlo": 1, "Dhi": 2, "Dscore": 1}),
 }
 # one per predicate (plus the two no-PX rules) in the quick tier, all of them in the thorough tier
 QUICK_BUGS = ["graylistLE", "emitGT", "floodPubGT", "graftLE0", "pxOnNegRefusal", "hbNoPXunset", "acceptPXinv", "noDirectExempt",
-              "gaterNone"]
+              "gaterNone", "fullBeforeNegative"]
 
 # coverage obligations (DESIGN C09): tags emitted by ThresholdsTrace when a validated real step could tell the
 # two sides of a comparison apart
@@ -43,6 +45,8 @@ def obligations():
                 "publish-fanout-hb", "publish-floodsub", "neg-graft", "neg-hb", "neg-join"):
         need += ["%s/%s" % (fam, r) for r in ("m1", "eq", "p1")]
     need += ["neg-graft-pxavail/m1", "neg-graft-pxavail/eq", "neg-hb-pxavail/m1"]
+    # a negative sender under every OTHER refusal precondition of handleGraft, with PX on and something to list
+    need += ["neg-graft-meshfull-pxavail", "neg-graft-backoff-pxavail", "neg-graft-direct-pxavail"]
     need += ["px/%s/%s" % (r, c) for r in ("m1", "eq", "p1") for c in ("none", "valid")]
     need += ["px/eq/%s" % c for c in ("wrongid", "baddomain", "garbage", "notrecord")]
     need += ["px/dialled", "px/over-limit", "px/graylisted", "direct/below-graylist", "direct/gater-overloaded",
@@ -51,7 +55,7 @@ def obligations():
     return need
 
 
-def mc_constants(thr, direct="{}", flood="{}", fpub=False, mix="basic", free="{p1, p2, p3}", bug="none", strings=False):
+def mc_constants(thr, direct="{}", flood="{}", fpub=False, mix="basic", free="{p1, p2, p3}", bug="none", strings=False, small=False):
     g, p, y, a, o = THR[thr]
     peers = '{"p1", "p2", "p3"}' if strings else "{p1, p2, p3}"
     c = {}
@@ -60,6 +64,7 @@ def mc_constants(thr, direct="{}", flood="{}", fpub=False, mix="basic", free="{p
     c.update({"Peers": peers, "Direct": direct, "FloodProto": flood, "NegGossip": g, "NegPublish": p, "NegGraylist": y,
               "AcceptPX": a, "OppGraft": o, "FloodPublish": fpub, "DoPX": True, "Gater": '"throttling"',
               "MixMode": '"%s"' % mix, "ScoreFree": free, "Bug": '"%s"' % bug})
+    c.update(dict(zip(("D", "Dlo", "Dhi", "Dscore"), (2, 1, 2, 1) if small else (4, 2, 5, 2))))
     return c
 
 
@@ -70,7 +75,9 @@ def model_check(ctx):
             ("A-rpc", dict(thr="A", mix="all", free="{p1}")),
             ("A-rich", dict(thr="A", mix="move", direct="{p3}", flood="{p2}", fpub=True)),
             ("Z-global", dict(thr="Z", mix="basic", free="{p1, p2, p3}" if ctx.thorough else "{p1, p2}")),
-            ("B-rpc", dict(thr="B", mix="all", free="{p1}"))]
+            ("B-rpc", dict(thr="B", mix="all", free="{p1}")),
+            # small degrees: the mesh fills up, so the mesh-full refusal and the over-subscription prune are reachable
+            ("A-small", dict(thr="A", mix="move", small=True, free="{p1, p2, p3}" if ctx.thorough else "{p1, p2}"))]
     if ctx.thorough:
         runs += [("A-rpc-direct", dict(thr="A", mix="all", free="{p1}", direct="{p1}")),
                  ("Z-rich", dict(thr="Z", mix="basic", direct="{p3}", flood="{p2}", fpub=True)),
@@ -108,7 +115,8 @@ def model_check(ctx):
 
 def generate(ctx):
     """One TLC run enumerates the scenario programs of GenThresholds for every threshold set."""
-    fams = ["rpc1", "mix", "px", "gater", "meshA", "meshB", "fanA", "fanB", "joinfan"] + (["rpc2"] if ctx.thorough else [])
+    fams = ["rpc1", "mix", "px", "gater", "meshA", "meshB", "fanA", "fanB", "joinfan", "graftfull", "graftbo"] + \
+           (["rpc2"] if ctx.thorough else [])
     c = mc_constants("A", strings=True, free='{"p1", "p2", "p3"}')
     c["Families"] = "{" + ", ".join('"%s"' % f for f in fams) + "}"
     c["ThrSets"] = "ThrSets <- StdThrSets"
@@ -136,7 +144,9 @@ def select(ctx, gen):
               "rpc2": {"A": 150, "B": 100, "Z": 60},
               "mix": {"A": None, "B": 24 if q else None, "Z": 24 if q else None},
               "px": {"A": 64 if q else None, "B": 30 if q else None, "Z": 30 if q else None},
-              "gater": {"A": 8 if q else 64, "B": 8 if q else 32, "Z": 8 if q else 32}}
+              "gater": {"A": 8 if q else 64, "B": 8 if q else 32, "Z": 8 if q else 32},
+              "graftfull": {"A": None, "B": 4 if q else None, "Z": None},
+              "graftbo": {"A": None, "B": 4 if q else None, "Z": None}}
     cap = {"A": 10, "B": 6, "Z": 5} if q else {"A": 260, "B": 120, "Z": 27}
     keep, total = [], 0
 
@@ -182,7 +192,7 @@ def select(ctx, gen):
                     axis = axis[:len(axis) // 3]
                 keep += axis + rest[:cap[thr]]
     for s in keep:
-        s["cfg"]["hosts"] = 5 if s["native"] else 12
+        s["cfg"]["hosts"] = (7 if s["fam"] == "graftfull" else 5) if s["native"] else 12
     return keep, total
 
 
